@@ -299,10 +299,11 @@ def const(node, env=None):
     if isinstance(node, ast.Call) and isinstance(node.func, ast.Name) and not node.keywords:
         fn = node.func.id
         args = [const(a, env) for a in node.args]
-        if fn in ('range', 'bytearray', 'bytes', 'len', 'int', 'tuple', 'list', 'min', 'max', 'sum', 'frozenset', 'set'):
-            r = {'range': range, 'bytearray': bytearray, 'bytes': bytes, 'len': len, 'int': int, 'tuple': tuple,
-                 'list': list, 'min': min, 'max': max, 'sum': sum, 'frozenset': frozenset, 'set': set}[fn](*args)
-            return r
+        table = {'range': range, 'bytearray': bytearray, 'bytes': bytes, 'len': len, 'int': int, 'tuple': tuple,
+                 'list': list, 'min': min, 'max': max, 'sum': sum, 'frozenset': frozenset, 'set': set,
+                 'bool': bool, 'pow': pow, 'abs': abs}
+        if fn in table:
+            return table[fn](*args)
     if isinstance(node, ast.Call) and isinstance(node.func, ast.Attribute) and node.func.attr == 'fromhex' \
             and norm(node.func.value) in ('bytearray', 'bytes'):
         return bytearray.fromhex(const(node.args[0], env))
